@@ -314,7 +314,7 @@ def _replay(h, scratch, target_dir, prop):
         fh.write("\n\n".join(blocks) + "\n")
     modfile = os.path.join(srcdir, "src", "vk", h["module"] + ".rs")
     with open(modfile, "a") as fh:
-        fh.write("\n\n#[cfg(test)]\nmod kani_playback_tests {\n    use super::*;\n    #[allow(unused_imports)]\n    use std::vec::Vec;\n"
+        fh.write("\n\n#[cfg(test)]\nmod kani_playback_tests_" + h["name"] + " {\n    use super::*;\n    #[allow(unused_imports)]\n    use std::vec::Vec;\n"
                  + "\n\n".join(blocks) + "\n}\n")
     results = []
     for prof in ("dev", "release"):
@@ -451,7 +451,7 @@ def main():
     t_start = time.time()
     hs = registry.harnesses_for(prop, tier)
     if a.only:
-        hs = [h for h in hs if a.only in h["name"]]
+        hs = [h for h in hs if any(o in h["name"] for o in a.only.split(","))]
     if not hs:
         log("no harness registered for %s/%s" % (prop, tier))
         return 2
